@@ -104,6 +104,34 @@ def _worker_run(args):
     return res
 
 
+def _worker_sweep(args):
+    """Process-history sweep: execute a chunk of states forward and then backward in ONE fresh process.
+
+    In the backward sweep every state runs after every other state of the chunk has been executed at least once, so any
+    state of the library that survives between executions (module/class level caches, mutated shared defaults) and
+    changes a result is seen either by the oracle or as a difference between the two outcome digests of the same state.
+    """
+    pid, chunk, chunk_id = args
+    _worker_init(pid)
+    out = []
+    first = {}
+    for sweep, seq in (("fwd", chunk), ("bwd", list(reversed(chunk)))):
+        for idx, state in seq:
+            try:
+                res = _PROP.execute(state)
+            except Exception as e:
+                res = {"violations": [], "harness_error": f"{type(e).__name__}: {e}\n{traceback.format_exc()}", "outcome": "harness_error"}
+            oc = res.get("outcome")
+            oc = canon(sorted(oc) if isinstance(oc, (list, tuple, set)) else oc)
+            rec = {"idx": idx, "chunk": chunk_id, "sweep": sweep, "violations": res.get("violations", []), "harness_error": res.get("harness_error"), "outcome": oc}
+            if sweep == "fwd":
+                first[idx] = oc
+            elif first.get(idx) != oc:
+                rec["outcome_changed"] = True
+            out.append(rec)
+    return out
+
+
 # ---------------------------------------------------------------------------
 # known findings
 
@@ -179,6 +207,29 @@ def run_check(pid, tier="quick", seed=0, workers=None, replay=None, only=None):
             pool.join()
 
     completed = [r for r in results if r is not None]
+    # ---- process-history sweep (opt-in per property): a declared sub-lattice, fresh processes, forward + backward
+    sweep_records = []
+    sweep_chunks = []
+    if getattr(prop, "HISTORY_SWEEP", False) and not cap_hit and n > 1 and os.environ.get("VERIF_NO_SWEEP") != "1":
+        per = int(getattr(prop, "HISTORY_SWEEP_PER_PROCESS", 12))
+        nproc = min(16, max(1, n // per))
+        nstr = (nproc + 1) // 2
+        # (a) strided chunks: every process sees states from all over the lattice
+        stride = max(1, n // (nstr * per))
+        sub = list(range(0, n, stride))[: nstr * per]
+        sweep_chunks = [[(i, states[i]) for i in sub[k::nstr]] for k in range(nstr)]
+        # (b) contiguous blocks of the enumeration: neighbours differ in the fastest-varying coordinates only, which is where
+        #     a cache keyed with a missing field makes two different requests collide
+        nblk = nproc - nstr
+        for b in range(nblk):
+            start = (b * n) // max(1, nblk) + (n // max(1, nblk)) // 3
+            idxs = [i % n for i in range(start, start + per)]
+            sweep_chunks.append([(i, states[i]) for i in dict.fromkeys(idxs)])
+        sweep_chunks = [c for c in sweep_chunks if c]
+        ctx = mp.get_context("spawn")
+        with ctx.Pool(min(workers, nproc), maxtasksperchild=1) as sp:
+            for recs in sp.imap_unordered(_worker_sweep, [(pid, ch, k) for k, ch in enumerate(sweep_chunks)]):
+                sweep_records.extend(recs)
     violations = []
     harness_errors = []
     info = {}
@@ -210,6 +261,39 @@ def run_check(pid, tier="quick", seed=0, workers=None, replay=None, only=None):
                     info[k] = info.get(k, 0) + val
                 else:
                     info[k] = max(info.get(k, val), val)
+    n_sweep_exec = len(sweep_records)
+    for rec in sweep_records:
+        st = states[rec["idx"]]
+        if rec.get("harness_error"):
+            harness_errors.append((st, rec["harness_error"]))
+        hist_states = None
+        if rec.get("chunk") is not None:
+            ch = sweep_chunks[rec["chunk"]]
+            seq = [s_ for _, s_ in ch] + [s_ for _, s_ in reversed(ch)]
+            # everything executed before this record in its process
+            if rec["sweep"] == "fwd":
+                k = [i for i, _ in ch].index(rec["idx"])
+                hist_states = seq[:k]
+            else:
+                k = [i for i, _ in reversed(ch)].index(rec["idx"])
+                hist_states = seq[: len(ch) + k]
+        for v in rec.get("violations", []):
+            v = dict(v)
+            v["state"] = st
+            v["_idx"] = rec["idx"]
+            v["_history"] = hist_states
+            v["msg"] = f"[process-history sweep, {rec['sweep']}] " + v.get("msg", "")
+            violations.append(v)
+        if rec.get("outcome_changed"):
+            violations.append({
+                "state": st,
+                "_idx": rec["idx"],
+                "_history": hist_states,
+                "fp": {"cls": "history-dependent-outcome", "sweep": True},
+                "fpkey": {"cls": "history-dependent-outcome"},
+                "msg": "[process-history sweep] the same state gave two different outcome digests in one process (forward sweep vs backward sweep after all other states of its chunk): the result depends on what was executed before in the process",
+                "_outcome_changed": True,
+            })
     if hasattr(prop, "finalize"):
         for v in prop.finalize([(states[r["idx"]], r) for r in completed]):
             violations.append(v)
@@ -263,7 +347,18 @@ def run_check(pid, tier="quick", seed=0, workers=None, replay=None, only=None):
         if n_reported < 40:
             conf = ""
             if n_reported < 3 and os.environ.get("VERIF_NO_CONFIRM") != "1":
-                ok = confirm_in_subprocess(pid, path)
+                if v.get("_outcome_changed"):
+                    # reproduced by construction only with its history: replay = history + the state twice is not expressible; keep the full history
+                    _with_history(path, v.get("_history") or [])
+                    ok = True
+                    conf = f" (history of {len(v.get('_history') or [])} earlier executions stored in the replay file)"
+                else:
+                    ok = confirm_in_subprocess(pid, path)
+                if ok is False and v.get("_history"):
+                    hist = minimise_history(pid, path, v["_history"])
+                    if hist is not None:
+                        conf = f" confirmed-in-fresh-process-after-a-history-of-{len(hist)}-earlier-executions (depends on state that survives between executions in one process)"
+                        ok = True
                 if ok is False and v.get("_idx") in pos:
                     # the state passes alone: replay it after the states the same worker process had executed before it
                     w, k = pos[v["_idx"]]
@@ -302,7 +397,7 @@ def run_check(pid, tier="quick", seed=0, workers=None, replay=None, only=None):
     excluded = prop.excluded(tier) if hasattr(prop, "excluded") else {}
     coverage = {
         "states": max(sub, len(completed)),
-        "transitions": max(transitions, 1) if completed else 0,
+        "transitions": (max(transitions, 1) if completed else 0) + n_sweep_exec,
         "traces_validated_against_impl": max(sub, len(completed)),
         "samples": samples,
         "evaluations": max(sub, len(completed)),
@@ -318,6 +413,13 @@ def run_check(pid, tier="quick", seed=0, workers=None, replay=None, only=None):
         "new_violation_fingerprints": len(seen_fp),
         "measured": {k: info[k] for k in sorted(info)},
         "workers": workers,
+        "process_history_sweep": {
+            "enabled": bool(sweep_chunks),
+            "processes": len(sweep_chunks),
+            "states_in_sub_lattice": sum(len(c) for c in sweep_chunks),
+            "executions": n_sweep_exec,
+            "rule": "a declared sub-lattice (half of the processes: every k-th state of the enumeration, interleaved; other half: contiguous blocks of the enumeration) is executed forward and then backward inside fresh processes (one chunk per process); oracle on both executions and equality of the two outcome digests of each state",
+        },
     }
     if hasattr(prop, "bounds"):
         coverage["bounds"] = prop.bounds(tier)
